@@ -100,6 +100,11 @@ func BuildQuerySQL(db *gorm.DB) {
 		fromClause := clause.From{}
 		if v, ok := db.Statement.Clauses["FROM"].Expression.(clause.From); ok {
 			fromClause = v
+			if len(db.Statement.Joins) != 0 {
+				// the clause value is shared with the handle this statement was derived from (and
+				// AfterQuery leaves a shortened slice behind): append the joins to a copy
+				fromClause.Joins = append(make([]clause.Join, 0, len(v.Joins)+len(db.Statement.Joins)), v.Joins...)
+			}
 		}
 
 		if len(db.Statement.Joins) != 0 || len(fromClause.Joins) != 0 {
